@@ -203,6 +203,38 @@ def run(ctx):
                   {'x0_shape_passed': list(c['x0'].shape) if c and isinstance(c['x0'], Arr) else None, 'result_shape': list(shape),
                    'expected': list(want_shape)}, 'flattened in, squeezed out, arguments forwarded', 'x.shape=%s' % (xshape,),
                   key='grad')
+    # Gradient takes the same constructor options and must hand them on like Jacobian does
+    for method, want in expect.items():
+        del captured[:]
+        box = boxes['finite arrays']
+        sp, st = Poly.sym('sparsity'), Poly.sym('s')
+        x = Arr((2,), [Poly.sym('x0'), Poly.sym('x1')])
+        label = 'Gradient/%s/step, bounds, sparsity given' % method
+        try:
+            G(fun, method=method, step=st, bounds=box, sparsity=sp)(x, *marker_args, **marker_kw)
+        except InterpRaise as exc:
+            rep.violation('R-GRAD', 'nd_scipy.Gradient.__call__', mod.relpath, {'raises': exc.exc_name, 'message': exc.msg[:100]},
+                          'options forwarded', label, key='grad options raise')
+            continue
+        c = captured[-1] if captured else None
+        problems = []
+        if c is None:
+            problems.append('approx_derivative was not called')
+        else:
+            kws = dict(c['kw'])
+            for k, v in zip(['method', 'rel_step', 'abs_step', 'f0', 'bounds', 'sparsity'], c['pos']):
+                kws[k] = v
+            if kws.get('method') != want:
+                problems.append('method=%r' % (kws.get('method'),))
+            if kws.get('rel_step') is not st:
+                problems.append('rel_step=%r' % (kws.get('rel_step'),))
+            got = kws.get('bounds')
+            if not (got is box or (isinstance(got, (tuple, list)) and len(got) == 2 and all(_same_bound(g, w) for g, w in zip(got, box)))):
+                problems.append('bounds=%r' % (got,))
+            if kws.get('sparsity') is not sp:
+                problems.append('sparsity=%r' % (kws.get('sparsity'),))
+        rep.check(not problems, 'R-GRAD', 'nd_scipy.Gradient.__call__', mod.relpath, {'problems': problems[:3]},
+                  'method, step, bounds and sparsity reach approx_derivative as for Jacobian', label, key='grad options')
     rep.notes['trusted_base'] = ['python ast', 'ndverif abstract interpreter', 'SciPy approx_derivative (its source is only parsed)']
 
 
